@@ -597,6 +597,27 @@ type concRec struct {
 	Node string
 	Pod  string
 	OK   bool
+	// the scheduler steps at which the call was made and at which it returned
+	Start, End int
+}
+
+// overlappingAdds reports whether two add-node calls for the name n were in flight at the
+// same time (one of them failing): only that is the recorded race.
+func (w *cluWorld) overlappingAdds(n string) bool {
+	var adds []concRec
+	for _, r := range w.concLog {
+		if r.Kind == "add_node" && r.Node == n {
+			adds = append(adds, r)
+		}
+	}
+	for i := range adds {
+		for j := i + 1; j < len(adds); j++ {
+			if adds[i].Start <= adds[j].End && adds[j].Start <= adds[i].End {
+				return true
+			}
+		}
+	}
+	return false
 }
 
 func (w *cluWorld) countOps(f func(r concRec) bool) int {
@@ -622,7 +643,10 @@ func (w *cluWorld) checkRefs(s *cluState, after string) {
 			if w.countOps(func(r concRec) bool { return r.Kind == "add_node" && r.Node == n }) >= 2 &&
 				w.countOps(func(r concRec) bool { return r.Kind == "add_node" && r.Node == n && !r.OK }) >= 1 &&
 				w.countOps(func(r concRec) bool { return r.Kind == "remove_node" && r.Node == n && r.OK }) == 0 {
-				sig = "concurrent-add-node-same-name"
+				sig = "add-node-same-name-one-after-the-other"
+				if w.overlappingAdds(n) {
+					sig = "concurrent-add-node-same-name"
+				}
 			} else if w.countOps(func(r concRec) bool { return r.Kind == "add_node" && r.Node == n }) >= 1 &&
 				w.countOps(func(r concRec) bool { return r.Kind == "remove_node" && r.Node == n && r.OK }) >= 1 {
 				sig = "add-node-vs-remove-node-same-name"
@@ -647,7 +671,7 @@ func (w *cluWorld) checkRefs(s *cluState, after string) {
 			if w.countOps(func(r concRec) bool { return r.Kind == "add_node" && r.Node == n }) >= 1 &&
 				w.countOps(func(r concRec) bool { return r.Kind == "remove_node" && r.Node == n && r.OK }) >= 1 {
 				sig = "add-node-vs-remove-node-same-name"
-			} else if w.countOps(func(r concRec) bool { return r.Kind == "add_node" && r.Node == n }) >= 2 {
+			} else if w.countOps(func(r concRec) bool { return r.Kind == "add_node" && r.Node == n }) >= 2 && w.overlappingAdds(n) {
 				sig = "concurrent-add-node-same-name"
 			}
 			w.viol("C22", "resource-without-node", sig, fmt.Sprintf("resource record for %s exists but the node is not recorded", n))
